@@ -431,10 +431,21 @@ pub fn c05_case(seed: u64, idx: u64) -> Option<(Model, String, String, Vec<(Role
 // ---------------------------------------------------------------------------
 // C06 client
 
+/// The declared payload type as a client outside the module must write it: a bare name that is one of
+/// the grammar's own nonterminals denotes the emitted type of that name.
+fn client_type(m: &Model, ty: &TypeExpr) -> String {
+    if let TypeExpr::Path(p) = ty {
+        if p.len() == 1 && m.nts.iter().any(|n| n.name == p[0]) {
+            return format!("gen::{}", p[0]);
+        }
+    }
+    ty.text()
+}
+
 fn rust_type(m: &Model, s: Sym) -> String {
     match s {
         Sym::N(i) => format!("Box<gen::{}>", m.nts[i].name),
-        Sym::T(i) => m.terms[i].ty.text(),
+        Sym::T(i) => client_type(m, &m.terms[i].ty),
     }
 }
 
@@ -443,11 +454,11 @@ fn client_source(m: &Model) -> String {
     let mut s = String::from("mod client {\n    use super::gen;\n");
     // terminal enum
     for (k, t) in m.terms.iter().enumerate() {
-        s.push_str(&format!("    fn term_ctor_{k}(v: {}) -> gen::{tok} {{ gen::{tok}::{}(v) }}\n", t.ty.text(), t.name));
+        s.push_str(&format!("    fn term_ctor_{k}(v: {}) -> gen::{tok} {{ gen::{tok}::{}(v) }}\n", client_type(m, &t.ty), t.name));
     }
     s.push_str(&format!("    fn term_match(t: gen::{tok}) {{\n        match t {{\n"));
     for t in &m.terms {
-        s.push_str(&format!("            gen::{tok}::{}(x) => {{ let _: {} = x; }}\n", t.name, t.ty.text()));
+        s.push_str(&format!("            gen::{tok}::{}(x) => {{ let _: {} = x; }}\n", t.name, client_type(m, &t.ty)));
     }
     s.push_str("        }\n    }\n");
     let pattern = |path: &str, p: &Prod| -> (String, String, String) {
@@ -539,6 +550,18 @@ pub fn c06_case(seed: u64, idx: u64) -> Option<(Model, String, String)> {
         crate::model::shuffle_names(&mut m, &mut rng);
     }
     crate::model::vary_member_names(&mut m, &mut rng);
+    if rng.chance(0.15) && !m.terms.is_empty() {
+        // a payload type spelled like one of the grammar's own nonterminals (`$Quoted: Expr`): legal, it
+        // denotes the emitted type of that name.  (Not a nonterminal that holds this terminal by value:
+        // that type would contain itself.)
+        let k = rng.below(m.terms.len());
+        let candidates: Vec<usize> =
+            (0..m.nts.len()).filter(|j| !m.nts[*j].prods.iter().any(|p| p.fields.iter().any(|f| f.used && f.sym == Sym::T(k)))).collect();
+        if !candidates.is_empty() {
+            let j = *rng.pick(&candidates);
+            m.terms[k].ty = TypeExpr::path(&m.nts[j].name.clone());
+        }
+    }
     let src = m.render();
     let lib = format!("#![allow(warnings)]\npub struct Pay(pub usize);\npub struct ItSelfNode(pub usize);\npub mod gen;\n{}", client_source(&m));
     Some((m, src, lib))
